@@ -29,7 +29,7 @@ from . import sim  # noqa: F401  (sys.path -> repo under test, logging / tqdm si
 from .common import int_to_limbs
 
 KINDS = ("uni", "aave", "squeeth", "deribit", "gmx1", "gmx2", "mix")
-MIX_BLOCK = 20      # NoLookahead!MixBlock: one bar symbol of kind "mix" = a block of 20 one-minute bars (no resampling)
+MIX_BLOCK = 20      # one bar symbol of kind "mix" = a block of 20 one-minute bars (no resampling)
 HOOKS = ("bb", "ob", "ab")
 D = Decimal
 UNI_RAW = ["netAmount0", "netAmount1", "closeTick", "openTick", "lowestTick", "highestTick", "inAmount0", "inAmount1",
@@ -44,8 +44,10 @@ def interval_of(kind: str, F: int) -> str:
     return "1min" if kind == "mix" else f"{F * period_min(kind)}min"
 
 
-def pattern(s: int, F: int):
+def pattern(s: int, F: int, kind: str = ""):
     """NoLookahead!Pattern: the raw symbols of one bar."""
+    if kind == "mix":
+        return (s,) * MIX_BLOCK        # a block of equal one-minute rows (the model's unit)
     if F == 1:
         return (s,)
     if s == 2:
@@ -58,10 +60,10 @@ def pattern(s: int, F: int):
     return (1,) * F
 
 
-def raw_of(hist, F: int):
+def raw_of(hist, F: int, kind: str = ""):
     out = []
     for s in hist:
-        out.extend(pattern(s, F))
+        out.extend(pattern(s, F, kind))
     return out
 
 
@@ -703,10 +705,10 @@ def prefix_digests(kind, F, rawfr, nbars):
 def run_history(kind, F, script, hist, tmp, rerun=True, keep=False):
     """One history through the real code: run, digests of the supplied / live frames before and after, rerun on the SAME
     frame objects with a fresh account.  Everything returned is a digest (small, picklable)."""
-    raw = raw_of(hist, F)
+    raw = raw_of(hist, F, kind)
     nb = len(hist)
     fr, rawfr = frames(kind, raw, tmp)
-    rp = prefix_digests(kind, F, rawfr, nb)
+    rp = prefix_digests(kind, MIX_BLOCK if kind == "mix" else F, rawfr, nb)
     w = actuator(kind, F, fr)
     live = live_frames(w)
     din = digest_frames(fr)
